@@ -10,7 +10,6 @@ import (
 
 func init() {
 	anyReply := func(m *Model, s *Sess, a []string, _ bool) Expect { return Expect{Mode: exAny} }
-	reg("scan", -2, false, anyReply)
 	reg("hscan", -3, false, anyReply)
 	reg("sscan", -3, false, anyReply)
 }
@@ -77,7 +76,7 @@ func genScanPlan(seed uint64, thorough bool) *Plan {
 			opts = append(opts, []string{"COUNT", g.pick("1", "2", "3", "10", "1000")})
 		}
 		if g.chance(3) {
-			opts = append(opts, []string{"MATCH", g.pick("*", "e*", "e1*", "e?", "e[0-4]*", "*7", "nomatch*", "e[^1]*")})
+			opts = append(opts, []string{"MATCH", g.pick("*", "e*", "e1*", "e?", "e[0-4]*", "*7", "nomatch*", "e[^1]*", "", "e[0-9]", "e1[0-9]")})
 		}
 		if kind == "scan" && g.chance(4) {
 			opts = append(opts, []string{"TYPE", g.pick("string", "list", "hash", "set", "zset")})
@@ -373,7 +372,7 @@ func (c *scanChecker) OnReply(w *World, op *Op) *Violation {
 	if it.rehash {
 		c.rehashed++
 	}
-	pattern, typ := "", ""
+	pattern, typ := "*", "" // no MATCH option = everything; an empty pattern matches only the empty name
 	for i := 0; i+1 < len(it.argv); i++ {
 		switch strings.ToUpper(it.argv[i]) {
 		case "MATCH":
@@ -383,7 +382,7 @@ func (c *scanChecker) OnReply(w *World, op *Op) *Violation {
 		}
 	}
 	matches := func(k string) bool {
-		if pattern != "" && !globMatch(pattern, k) {
+		if !globMatch(pattern, k) {
 			return false
 		}
 		if typ != "" && c.kind == "scan" {
@@ -405,7 +404,7 @@ func (c *scanChecker) OnReply(w *World, op *Op) *Violation {
 			c.iter = nil
 			return bad("invented", "full iteration %s: element %q was returned but was absent during the whole iteration", fmtArgs(it.argv), k)
 		}
-		if pattern != "" && !globMatch(pattern, k) {
+		if !globMatch(pattern, k) {
 			c.iter = nil
 			return bad("filter", "full iteration %s returned %q, which does not match the pattern", fmtArgs(it.argv), k)
 		}
